@@ -5,6 +5,7 @@ import re
 
 from ..core import AnalysisError, norm, short, walk_local, parent_chain, stale_loop_uses
 from . import register
+from ..inline import inlined_view
 
 CMP = "spydrnet/compare/compare_netlists.py"
 
@@ -108,7 +109,7 @@ def _disjuncts(e):
     return [e]
 
 
-def _compare_view(f, subst=False):
+def _compare_view(f, subst=False, maxdepth=4):
     """the method with its checks in one canonical form: `if <c>: raise AssertionError(...)` becomes `assert not <c>`, and locals
     that are assigned once (hoisted sub-expressions such as `orig_port = orig_pin.port`) are substituted into the asserted tests"""
     import copy
@@ -147,7 +148,7 @@ def _compare_view(f, subst=False):
         depth = 0
 
         def visit_Name(self, n):
-            if isinstance(n.ctx, ast.Load) and n.id in defs and S.depth < 4:
+            if isinstance(n.ctx, ast.Load) and n.id in defs and S.depth < maxdepth:
                 nonlocal changed
                 changed = True
                 S.depth += 1
@@ -253,7 +254,7 @@ def check_c20(ctx, R):
     for mname, f in sorted(cc.methods.items()):
         if mname in ("__init__", "run", "get_identifier", "get_original_identifier"):
             continue
-        f0 = f
+        f0 = inlined_view(P, f)  # private helpers a maintainer extracted (wire / pin loops) are read as part of the method
         f = _compare_view(f0)
         S = Sides(f)
         found = set()
@@ -319,7 +320,9 @@ def check_c20(ctx, R):
                     R.bad("K1", "%s|mismatch-call|%s" % (f.key, c.func.attr), f.loc(c), "%s calls `%s` on different quantities (%s vs %s)" % (mname, short(c, 70), e1, e2))
         # K2
         if any(req not in found for req in REQUIRED.get(mname, [])):
-            found |= _found_in(_compare_view(f0, subst=True), two_sided)  # the same quantity through hoisted locals
+            for d_ in (1, 2, 3, 4):  # the same quantity through hoisted locals, at every depth of substitution
+                found |= _found_in(_compare_view(f0, subst=True, maxdepth=d_), two_sided)
+        found |= {re.sub(r"\[(\'[^\']*\'|\"[^\"]*\")\]", "", x) for x in found}  # a data key spelled out where a local stood for it
         for req in REQUIRED.get(mname, []):
             if req in found:
                 R.ok("K2", "%s compares %s" % (mname, req), f.loc())
@@ -334,8 +337,19 @@ def check_c20(ctx, R):
             R.ok("K5", "%s: loop variables are used inside their loops" % mname, f.loc())
         # K3
         if mname.startswith(("compare", "are_")):
+            fs = _compare_view(f0, subst=True)
             for r in walk_local(f.node):
                 if isinstance(r, ast.Return) and r is not f.node.body[-1]:
+                    # `if <key> not in <original>: return` ahead of comparisons that all concern that key is the guard-clause spelling of
+                    # `if <key> in <original>: <compare it>` — nothing that applies to such an element is skipped
+                    g = next((p for p in parent_chain(r) if isinstance(p, ast.If)), None)
+                    if g is not None and isinstance(g.test, ast.Compare) and len(g.test.ops) == 1 and isinstance(g.test.ops[0], ast.NotIn) \
+                            and isinstance(g.test.left, ast.Constant) and isinstance(g.test.left.value, str) and g in f.node.body:
+                        key_txt = repr(g.test.left.value)
+                        later = [a for a in walk_local(fs.node) if isinstance(a, ast.Assert) and a.lineno > g.lineno]
+                        if later and all(key_txt in norm(a.test) for a in later):
+                            R.ok("K3", "%s: guard clause on the absence of %s, which is all the rest of the method compares" % (mname, key_txt), f.loc(r))
+                            continue
                     R.bad("K3", "%s|early-return" % f.key, f.loc(r),
                           "%s returns early at `%s` (guard: %s): the comparisons after it are skipped for such elements"
                           % (mname, short(r, 40), "; ".join(short(p.test, 40) for p in parent_chain(r) if isinstance(p, ast.If)) or "none"))
